@@ -20,7 +20,7 @@ RULE = ("generated assemblies over every supported geometry, 1..4 modules, each 
         "survive and at least one expected to be dropped; distinct = distinct input sets.")
 ASSUMPTIONS = ["features have exact positions; 'generated' product features are those of type source without a uid",
                "citation qualifiers are compared by C10, all other qualifiers here"]
-FLOORS = {"c08_reassembled_after_edit": 100, "c08_judged": 400, "c08_nontrivial": 150, "c08_features_expected_to_survive": 500, "c08_features_expected_dropped": 500, "c08_registry_judged": 8}
+FLOORS = {"c08_three_level_compositions": 20, "c08_unlabelled_features_matched": 50, "c08_reassembled_after_edit": 100, "c08_judged": 400, "c08_nontrivial": 150, "c08_features_expected_to_survive": 500, "c08_features_expected_dropped": 500, "c08_registry_judged": 8}
 MUST_REACH = ["AbstractModule.target_sequence", "AbstractVector.target_sequence", "CircularRecord.__rshift__"]
 NEEDS_REGISTRIES = True
 BUDGET_S = {"quick": 900, "thorough": 7200}
@@ -34,6 +34,7 @@ def cases(tier, seed):
     per = 30 if tier == "quick" else 5000
     out = _embedded.assembly_cases(seed, per * len(gen.enzyme_names()), features=True, max_chain=4)
     out += _embedded.registry_assembly_cases(seed, per_vector=1 if tier == "quick" else 30)
+    out += [{"kind": "three-level", "i": i, "seed": seed} for i in range(60 if tier == "quick" else 6000)]
     return out
 
 
@@ -61,7 +62,82 @@ def give_uids(vrec, mods):
                 k += 1
 
 
+def three_level(mat, ctx):
+    """P0 = level-0 assembly over enzyme A into a vector embedding B sites; P1 = P0 re-used over B into a vector embedding A sites;
+    P2 = P1 re-used over A.  Every product keeps the default id and is re-used in memory (rotated by the library), so the
+    provenance features of earlier levels are ordinary - unlabelled - input annotation for the next level."""
+    import warnings
+    from Bio.Seq import Seq
+    from Bio.SeqFeature import SeqFeature, FeatureLocation
+    from moclo.record import CircularRecord
+    from .. import refmodel
+    from ..util import rc
+
+    rng = gen.rng_for(mat["seed"], PROP, "three", mat["i"])
+    A, B = rng.choice([("BsaI", "BbsI"), ("BbsI", "BsaI"), ("BsaI", "BsmBI"), ("BsmBI", "BsaI")])
+    g = {A: refmodel.geometry(gen.enzyme(A)), B: refmodel.geometry(gen.enzyme(B))}
+    forbid = (g[A][0], rc(g[A][0]), g[B][0], rc(g[B][0]))
+
+    def embedding_vector(X, Y, ox, oy):
+        """vector over X (overhangs ox = (start, end)) whose retained backbone makes the product a Y-module oy[0] -> oy[1]"""
+        gx, gy = g[X], g[Y]
+        for _ in range(200):
+            try:
+                v = gen.build_vector(rng, gx, o_start=ox[0], o_end=ox[1], plen=rng.randint(0, 10), blen=0)
+            except RuntimeError:
+                return None
+            backbone = oy[1] + gen.rand_dna(rng, gy[1]) + rc(gy[0]) + gen.rand_dna(rng, rng.randint(4, 16)) + gy[0] + gen.rand_dna(rng, gy[1]) + oy[0]
+            s = v["seq"] + backbone
+            if refmodel.count_sites(s, gx[0]) == 2 and refmodel.count_sites(s, gy[0]) == 2:
+                return s
+        return None
+
+    try:
+        oA = gen.gen_overhangs(rng, g[A][2], 2, forbid=forbid)
+        oB = gen.gen_overhangs(rng, g[B][2], 2, forbid=forbid)
+        oA2 = gen.gen_overhangs(rng, g[A][2], 2, forbid=forbid)
+        ins = gen.build_module(rng, g[A], oA[1], oA[0], rng.randint(6, 25), rng.randint(0, 10), extra_forbid=(g[B][0],))
+        v0 = embedding_vector(A, B, oA, oB)
+        v1 = embedding_vector(B, A, (oB[1], oB[0]), oA2)
+        v2 = gen.build_vector(rng, g[A], o_start=oA2[1], o_end=oA2[0], plen=rng.randint(0, 10), blen=rng.randint(4, 20), extra_forbid=(g[B][0],))
+    except RuntimeError:
+        ctx.count("three_level_unbuildable")
+        return
+    if v0 is None or v1 is None:
+        ctx.count("three_level_unbuildable")
+        return
+    VA, MA = gen.generic_classes(A)
+    VB, MB = gen.generic_classes(B)
+    irec = CircularRecord(Seq(ins["seq"]), id="insert", name="insert")
+    irec.features.append(SeqFeature(FeatureLocation(ins["frag_start"] + 1, ins["frag_start"] + ins["frag_len"] - 1, 1), type="CDS", qualifiers={"uid": ["insert.cds"]}))
+    before = ctx.counters["c08_judged"]
+    with warnings.catch_warnings():
+        warnings.simplefilter("ignore")
+        try:
+            p0 = VA(CircularRecord(Seq(v0), id="v0", name="v0")).assemble(MA(irec >> rng.randrange(len(irec))))
+            if refmodel.count_sites(str(p0.seq), g[B][0]) != 2 or refmodel.count_sites(str(p0.seq), g[A][0]) != 0:
+                ctx.count("three_level_junction_site")
+                return
+            p1 = VB(CircularRecord(Seq(v1), id="v1", name="v1")).assemble(MB(p0 >> rng.randrange(len(p0))))
+            if refmodel.count_sites(str(p1.seq), g[A][0]) != 2 or refmodel.count_sites(str(p1.seq), g[B][0]) != 0:
+                ctx.count("three_level_junction_site")
+                return
+            VA(CircularRecord(Seq(v2["seq"]), id="v2", name="v2")).assemble(MA(p1 >> rng.randrange(len(p1))))
+        except Exception as e:
+            ctx.violation("three-level-assembly-raises:%s" % type(e).__name__, "re-using products as modules over three levels raised %s: %s" % (type(e).__name__, str(e)[:160]),
+                          A=A, B=B, v0=v0, v1=v1, v2=v2["seq"], insert=ins["seq"])
+            return
+    if ctx.counters["c08_judged"] >= before + 3:
+        ctx.count("c08_three_level_compositions")
+        ctx.nontrivial(["three", A, B, v0, v1, ins["seq"]])
+        ctx.sample({"kind": "three-level", "enzymes": [A, B, A], "ids": "default ('assembly') at every level"}, cap=1)
+
+
 def execute(mat, ctx):
+    if mat["kind"] == "three-level":
+        ctx.count("evaluations")
+        three_level(mat, ctx)
+        return
     ctx.count("evaluations")
     before = (ctx.counters["c08_judged"], ctx.counters["c08_nontrivial"])
     if mat["kind"] == "assembly-mat":
